@@ -130,6 +130,9 @@ func (g *progGen) expr(d int) string {
 	if g.kind != "value" {
 		n = 6
 	}
+	if g.kind == "value" && r.chance(0.3) {
+		return g.rare(d)
+	}
 	switch r.intn(n) {
 	case 0:
 		return g.atom()
@@ -189,6 +192,82 @@ func (g *progGen) expr(d int) string {
 		rest := f + "(" + g.expr(d-2) + ")"
 		g.vars = g.vars[:len(g.vars)-1]
 		return "func " + f + "(" + v + ") " + body + ";" + g.sp() + rest
+	}
+}
+
+// rare: syntactically reachable but unusual constructs of the value language
+func (g *progGen) rare(d int) string {
+	r := g.r
+	e := func() string { return g.expr(d - 1) }
+	switch r.intn(34) {
+	case 0:
+		return "f()" // unknown function, empty argument list
+	case 1:
+		return "numbers()" // wrong arity of a static function
+	case 2:
+		return "(()->" + e() + ")()" // closure without parameters
+	case 3:
+		return "((p,q)->p+q)(" + e() + "," + e() + ")"
+	case 4:
+		return "((p,p)->p)(1,2)" // duplicate parameter names
+	case 5:
+		return "switch " + e() + " default " + e() // switch without cases
+	case 6:
+		return "switch " + e() + " case " + e() + ": " + e() + " case " + e() + ": " + e() + " default " + e()
+	case 7:
+		return "{}" // empty map
+	case 8:
+		return "[]" + pick(r, "", ".size()", ".first()", ".sum()", ".map(x->x)", "[0]")
+	case 9:
+		return "{'a b':" + e() + ", c:" + e() + "}" + pick(r, "", ".'a b'", ".c", ".size()")
+	case 10:
+		return "{a:1, a:2}" // duplicate key
+	case 11:
+		return "{a:{b:{c:" + e() + "}}}.a.b.c"
+	case 12:
+		return "\"str\"" + pick(r, ".len()", ".toUpper()", ".split(\"t\")", ".cut(1,1)", "[0]", ".x", "()")
+	case 13:
+		return "3" + pick(r, ".string()", ".x", "()", "[0]", ".5.6")
+	case 14:
+		return "(" + e() + ")" + pick(r, "²", "³", "⁰", "¹²")
+	case 15:
+		return e() + pick(r, " • ", " × ", " ÷ ", " – ", " ˆ ") + e()
+	case 16:
+		return "2a" + pick(r, "", "(b)", " b", "(b)(a)", "²")
+	case 17:
+		return "'a'" + pick(r, "", "+1", "('b')") // quoted identifiers
+	case 18:
+		return "try try " + e() + " catch " + e() + " catch " + e()
+	case 19:
+		return "try " + e() + " catch e->e" + pick(r, "", ".len()", "+1")
+	case 20:
+		return "let f=x->y->z->x+y+z; f(" + e() + ")(" + e() + ")(" + e() + ")"
+	case 21:
+		return "func f(n) if n<1 then 0 else f(n-1)+1; f(" + pick(r, "3", "a", "b") + ")"
+	case 22:
+		return "func f(x) x; func g(y) f(y)+1; g(" + e() + ")"
+	case 23:
+		return "let x=" + e() + "; let x=" + e() + "; x" // redeclaration
+	case 24:
+		return "const" + pick(r, "", " c=1; c", " 1")
+	case 25:
+		return e() + pick(r, " /* c */ ", " // c\n", "/**/", "/*/", "//", "/* /* */ */") + e()
+	case 26:
+		return "\"a\\n\\t\\\"\\\\\\q\"" + pick(r, "", "+a", ".len()")
+	case 27:
+		return pick(r, "1e5", "1e-3", "1.5e+2", "0.000001", "1.", ".5", "1..2", "1e", "0x10", "1_000", "007", "1.2.3")
+	case 28:
+		return "[1,2,3]" + pick(r, ".map((p,q)->p)", ".map(1)", ".reduce(x->x)", ".map()", ".nosuch()", ".map(x->x,2)", ".top(\"a\")", ".multiUse({})", ".multiUse({a:1})", ".multiUse(1)")
+	case 29:
+		return "{a:1}" + pick(r, ".put(\"a\",2)", ".get(\"b\")", "+{a:2}", ".map(x->x)", ".replace(x->1)", ".nosuch", ".a.b")
+	case 30:
+		return "throw(" + pick(r, "\"x\"", "1", "", "a") + ")"
+	case 31:
+		return "if " + e() + " then " + e() // missing else
+	case 32:
+		return "(" + e() + "," + e() + ")" // tuple-like
+	default:
+		return "x->x->x" + pick(r, "", "(1)", "->")
 	}
 }
 
